@@ -1,6 +1,7 @@
 package main
 
 import (
+	"fmt"
 	"go/types"
 
 	"golang.org/x/tools/go/ssa"
@@ -24,6 +25,16 @@ func (ex *Exec) newFileCell(fn *ssa.Function, resultIdx int) *Cell {
 	res := fn.Signature.Results()
 	ft := res.At(resultIdx).Type().(*types.Pointer).Elem()
 	return ex.newCell(ft)
+}
+
+func plField(c *Cell, name string) *Cell {
+	st := c.T.Underlying().(*types.Struct)
+	for i := 0; i < st.NumFields(); i++ {
+		if st.Field(i).Name() == name {
+			return c.Kids[i]
+		}
+	}
+	panic("persistentLog has no field " + name)
 }
 
 func registerIOIntercepts() {
@@ -64,6 +75,34 @@ func registerIOIntercepts() {
 			return &Agg{E: []Value{&SliceVal{Blob: &Blob{ID: ex.blobSeq, Len: ln, Kind: "proto", Msg: a[0]}}, nilErr()}}
 		},
 		"encoding/binary.Write": func(ex *Exec, fn *ssa.Function, a []Value) Value { return nilErr() },
+		// B1 binding: the in-memory entries of a persistentLog stand for its durable content
+		// (justified by C12: memory is published only after Sync), so reopening is the identity.
+		"(*github.com/jmsadair/raft.persistentLog).Open": func(ex *Exec, fn *ssa.Function, a []Value) Value {
+			c := a[0].(*Ptr).C
+			fc, ec := plField(c, "file"), plField(c, "entries")
+			if p := fc.V.(*Ptr); p.C == nil {
+				fc.V = &Ptr{C: ex.newCell(fc.T.(*types.Pointer).Elem())}
+			}
+			if d, ok := ex.ghost[fmt.Sprintf("durable-log:%d", c.id)]; ok {
+				ec.V = d
+			}
+			return nilErr()
+		},
+		"(*github.com/jmsadair/raft.persistentLog).Close": func(ex *Exec, fn *ssa.Function, a []Value) Value {
+			c := a[0].(*Ptr).C
+			fc, ec := plField(c, "file"), plField(c, "entries")
+			if p := fc.V.(*Ptr); p.C == nil {
+				return nilErr()
+			}
+			// the durable content is what memory held when the file was closed
+			src := ec.V.(*SliceVal)
+			cp := ex.appendSlice(&SliceVal{}, ec.T.Underlying().(*types.Slice).Elem(), ex.sliceElems(src))
+			ex.ghost[fmt.Sprintf("durable-log:%d", c.id)] = cp
+			ec.V = &SliceVal{}
+			fc.V = &Ptr{}
+			return nilErr()
+		},
+		"(*github.com/jmsadair/raft.persistentLog).Replay": func(ex *Exec, fn *ssa.Function, a []Value) Value { return nilErr() },
 	}
 	for k, v := range m {
 		intercepts[k] = v
